@@ -23,6 +23,16 @@ func Root() string {
 	return "/verif"
 }
 
+// OutDir is where evidence/ and replays/ are written (VERIF_OUT, default
+// Root()).  Used to run a check against a scratch copy of the repository
+// without touching the committed evidence.
+func OutDir() string {
+	if r := os.Getenv("VERIF_OUT"); r != "" {
+		return r
+	}
+	return Root()
+}
+
 // Finding is one entry of known_findings.json.
 type Finding struct {
 	Property  string      `json:"property"`
@@ -269,7 +279,7 @@ func (r *Run) Violation(sig, what string, witness interface{}) bool {
 		return true // same signature already reported with a replay file
 	}
 	v := Violation{Signature: sig, What: what, Witness: witness}
-	dir := filepath.Join(Root(), "replays")
+	dir := filepath.Join(OutDir(), "replays")
 	os.MkdirAll(dir, 0o755)
 	name := fmt.Sprintf("%s-%s-seed%d-%d.json", r.Prop, r.Tier, r.Seed, len(r.violations)+1)
 	path := filepath.Join(dir, name)
@@ -353,7 +363,7 @@ func (r *Run) Finish() int {
 		out["assumptions"] = []string{}
 	}
 	b, _ := json.MarshalIndent(out, "", " ")
-	dir := filepath.Join(Root(), "evidence")
+	dir := filepath.Join(OutDir(), "evidence")
 	os.MkdirAll(dir, 0o755)
 	if err := os.WriteFile(filepath.Join(dir, r.Prop+".json"), append(b, '\n'), 0o644); err != nil {
 		fmt.Fprintf(os.Stderr, "cannot write evidence: %v\n", err)
